@@ -1228,6 +1228,15 @@ class EventBus:
             # Cancel the monitor task on timeout too
             monitor_task.cancel()
 
+            if handler_task is None or (handler_task.done() and not handler_task.cancelled()):
+                # The handler was not cut off by our timeout, it raised a TimeoutError of its own
+                # (e.g. from a network call it made): record it like any other handler error
+                event.event_result_update(handler=handler, eventbus=self, error=e)
+                logger.error(
+                    f'❌ {self} Error in event handler {get_handler_name(handler)}({event}) -> \n{type(e).__name__}({e})\n{_log_filtered_traceback(e)}',
+                )
+                raise
+
             # Create a RuntimeError for timeout
             children = (
                 f' and interrupted any processing of {len(event.event_children)} child events' if event.event_children else ''
